@@ -56,6 +56,17 @@ func sourcePins(repo string) map[string]string {
 					}
 					sum := sha256.Sum256(buf.Bytes())
 					out[name] = hex.EncodeToString(sum[:8])
+					// second pin, insensitive to the wording of string literals (for models that do not depend on message texts)
+					ast.Inspect(d, func(n ast.Node) bool {
+						if bl, ok := n.(*ast.BasicLit); ok && bl.Kind == token.STRING {
+							bl.Value = `""`
+						}
+						return true
+					})
+					buf.Reset()
+					_ = printer.Fprint(&buf, token.NewFileSet(), d)
+					sum = sha256.Sum256(buf.Bytes())
+					out[name+"~nostr"] = hex.EncodeToString(sum[:8])
 				case *ast.GenDecl:
 					if d.Tok == token.VAR || d.Tok == token.CONST || d.Tok == token.TYPE {
 						for _, sp := range d.Specs {
